@@ -15,6 +15,7 @@ Dom_Full4      == 0..15                         \* with Depth = 4: the whole dom
 Probes_Std     == {0,1,2,127,128,254,255,85,170}
 Probes_4       == {}
 Probes_All     == 0..255
+Dom_Cous10     == {0,128,64,192,32,160,1,129,65,255}   \* sibling leaves, depth-7 and depth-6 cousins
 Dom_Hist6      == {0,1,128,129,2,255}          \* siblings, cousins and far leaves; all 1957 histories
 Dom_Sub16      == {5 + 16*j : j \in 0..15}     \* a complete depth-4 subtree below the node 1010
 
